@@ -37,7 +37,7 @@ def configure(tier, avoid):
     quick = tier == 'quick'
     p = gen.Params(max_stmts=14 if quick else 28, max_depth=2, expr_depth=2,
                    max_procs=2, avoid=avoid, mixed_case_types=True)
-    return {'examples': 400 if quick else 6000, 'params': p,
+    return {'examples': 400 if quick else 4000, 'params': p,
             'bounds': {'max_stmts': p.max_stmts,
                        'configs': [X.cfg_name(c) for c in CONFIGS]},
             'tick_budget': 60000}
